@@ -466,6 +466,80 @@ func pkgWrites(repo string, dirs []string) []map[string]string {
 	return out
 }
 
+// recvWrites lists the statements inside METHODS of the package's types that write through the
+// receiver (assignment / inc-dec whose target is rooted at the receiver, copy or append into a
+// receiver field): the cipher and AEAD objects are shared between goroutines, so after
+// construction (plain functions, not methods) nothing may write to them.
+func recvWrites(repo, dir string) []map[string]string {
+	out := []map[string]string{}
+	fset := token.NewFileSet()
+	pkgs, err := parser.ParseDir(fset, repo+"/"+dir, func(fi os.FileInfo) bool {
+		n := fi.Name()
+		return !strings.HasSuffix(n, "_test.go") && !strings.HasPrefix(n, "verif_")
+	}, 0)
+	if err != nil {
+		fail("%v", err)
+	}
+	for _, pkg := range pkgs {
+		for fname, f := range pkg.Files {
+			for _, d := range f.Decls {
+				fd, ok := d.(*ast.FuncDecl)
+				if !ok || fd.Body == nil || fd.Recv == nil || len(fd.Recv.List) == 0 || len(fd.Recv.List[0].Names) == 0 {
+					continue
+				}
+				recv := fd.Recv.List[0].Names[0].Name
+				tname := ""
+				if st, ok := fd.Recv.List[0].Type.(*ast.StarExpr); ok {
+					tname = exprName(st.X)
+				} else {
+					tname = exprName(fd.Recv.List[0].Type)
+				}
+				rec := func(how string, pos token.Pos) {
+					out = append(out, map[string]string{"pkg": dir, "file": fname[len(repo)+1:], "type": tname, "func": fd.Name.Name,
+						"how": how, "line": strconv.Itoa(fset.Position(pos).Line)})
+				}
+				rooted := func(e ast.Expr) bool {
+					id := rootIdent(e)
+					if id == nil || id.Name != recv {
+						return false
+					}
+					_, bare := e.(*ast.Ident) // `g = ...` rebinds the local receiver variable only
+					return !bare
+				}
+				ast.Inspect(fd.Body, func(n ast.Node) bool {
+					switch v := n.(type) {
+					case *ast.AssignStmt:
+						if v.Tok == token.DEFINE {
+							return true
+						}
+						for _, l := range v.Lhs {
+							if rooted(l) {
+								rec("assignment", v.Pos())
+							}
+						}
+					case *ast.IncDecStmt:
+						if rooted(v.X) {
+							rec("inc/dec", v.Pos())
+						}
+					case *ast.CallExpr:
+						if id, ok := v.Fun.(*ast.Ident); ok && id.Name == "copy" && len(v.Args) > 0 {
+							a := v.Args[0]
+							if sl, ok := a.(*ast.SliceExpr); ok {
+								a = sl.X
+							}
+							if rooted(a) {
+								rec("copy into a receiver field", v.Pos())
+							}
+						}
+					}
+					return true
+				})
+			}
+		}
+	}
+	return out
+}
+
 func init() {
 	specials["extract"] = func(args []string) {
 		if len(args) < 1 {
@@ -480,6 +554,7 @@ func init() {
 			"seal_scratch_local": scratchIsLocal(repo+"/sm4/sm4_gcm_amd64.go", "Seal", "sealAsm"),
 			"open_scratch_local": scratchIsLocal(repo+"/sm4/sm4_gcm_amd64.go", "Open", "openAsm"),
 			"package_writes":     pkgWrites(repo, []string{"sm2", "sm2/internal", "sm2/internal/fiat", "sm3", "sm4", "utils"}),
+			"receiver_writes":    recvWrites(repo, "sm4"),
 		}
 		enc, _ := json.Marshal(out)
 		os.Stdout.Write(enc)
